@@ -29,3 +29,42 @@ impl VToString for String { open spec fn vts_spec(&self) -> Seq<char> { self@ } 
 impl VToString for str { open spec fn vts_spec(&self) -> Seq<char> { self@ } #[verifier::external_body] fn vto_string(&self) -> String { self.to_string() } }
 impl VToString for usize { open spec fn vts_spec(&self) -> Seq<char> { dec_spec(*self as int) } #[verifier::external_body] fn vto_string(&self) -> String { self.to_string() } }
 impl VToString for bool { open spec fn vts_spec(&self) -> Seq<char> { if *self { "true"@ } else { "false"@ } } #[verifier::external_body] fn vto_string(&self) -> String { self.to_string() } }
+// ---- std string functions (R2/R4/R5): specifications over Seq<char>, trusted to match std's documentation ----
+pub uninterp spec fn is_ws(c: char) -> bool; // Unicode White_Space
+pub broadcast axiom fn is_ws_ascii(c: char)
+    requires (c as u32) < 128
+    ensures #[trigger] is_ws(c) == (c == ' ' || c == '\t' || c == '\n' || c == '\r' || c as u32 == 11 || c as u32 == 12);
+pub open spec fn trim_start_spec(s: Seq<char>) -> Seq<char> decreases s.len() {
+    if s.len() > 0 && is_ws(s[0]) { trim_start_spec(s.subrange(1, s.len() as int)) } else { s }
+}
+pub open spec fn trim_end_spec(s: Seq<char>) -> Seq<char> decreases s.len() {
+    if s.len() > 0 && is_ws(s[s.len() - 1]) { trim_end_spec(s.subrange(0, s.len() - 1)) } else { s }
+}
+pub open spec fn trim_spec(s: Seq<char>) -> Seq<char> { trim_end_spec(trim_start_spec(s)) }
+pub assume_specification [ str::trim ] (s: &str) -> (r: &str) ensures r@ == trim_spec(s@);
+pub open spec fn starts_with_spec(s: Seq<char>, p: Seq<char>) -> bool { p.len() <= s.len() && s.subrange(0, p.len() as int) == p }
+pub open spec fn ends_with_spec(s: Seq<char>, p: Seq<char>) -> bool { p.len() <= s.len() && s.subrange(s.len() - p.len(), s.len() as int) == p }
+#[verifier::external_body]
+pub fn v_starts_with(s: &str, p: &str) -> (r: bool) ensures r == starts_with_spec(s@, p@) { s.starts_with(p) }
+#[verifier::external_body]
+pub fn v_ends_with(s: &str, p: &str) -> (r: bool) ensures r == ends_with_spec(s@, p@) { s.ends_with(p) }
+#[verifier::external_body]
+pub fn vchars(s: &str) -> (r: Vec<char>) ensures r@ == s@ { s.chars().collect() }
+pub open spec fn first_nl(s: Seq<char>, i: int) -> int decreases s.len() - i {
+    if i >= s.len() || i < 0 { s.len() as int } else if s[i] == '\n' { i } else { first_nl(s, i + 1) }
+}
+pub open spec fn strip_cr(s: Seq<char>) -> Seq<char> { if s.len() > 0 && s[s.len() - 1] == '\r' { s.subrange(0, s.len() - 1) } else { s } }
+/// str::lines(): split at '\n', a '\r' directly before the '\n' is removed, no final empty piece
+pub open spec fn lines_from(s: Seq<char>, i: int) -> Seq<Seq<char>> decreases s.len() - i {
+    if i >= s.len() || i < 0 { Seq::empty() } else {
+        let k = first_nl(s, i);
+        if k >= s.len() { seq![s.subrange(i, s.len() as int)] }
+        else if k + 1 > i { seq![strip_cr(s.subrange(i, k))] + lines_from(s, k + 1) }
+        else { Seq::empty() }
+    }
+}
+pub open spec fn lines_spec(s: Seq<char>) -> Seq<Seq<char>> { lines_from(s, 0) }
+#[verifier::external_body]
+pub fn v_lines(s: &str) -> (r: Vec<&str>)
+    ensures r@.map_values(|x: &str| x@) == lines_spec(s@), r.len() < usize::MAX
+{ s.lines().collect() }
